@@ -2,12 +2,15 @@ import Grass.Proto
 /-
   C19 core — diagnostics: where they point, how they are rendered, how they reach the Logger.
 
-  Part 1  span arithmetic of `Lexer`            crates/compiler/src/lexer.rs:15-68, 116-173
-          + codemap-0.1.3 `Span::subspan/merge`, `File::find_line_col` (lib.rs:65-100, 238-262)
-  Part 2  `impl Display for SassError`          crates/compiler/src/error.rs:118-172
+  Part 1  span arithmetic of `Lexer`            crates/compiler/src/lexer.rs:15-68, 116-181
+          (re-lex sites: evaluate/visitor.rs:1126 @at-root query, :1286 selectors/@extend/selector
+          functions, :2919 keyframes selectors, ast/media.rs:57 media queries, parse/stylesheet.rs:1547
+          @use namespace) + codemap-0.1.3 `Span::subspan/merge`, `File::find_line_col`
+          (lib.rs:65-100, 238-262)
+  Part 2  `impl Display for SassError`          crates/compiler/src/error.rs:122-176
   Part 3  logger routing of @debug/@warn/@error crates/compiler/src/evaluate/visitor.rs:1041-1053
           (`visit_debug_rule`), :1340 (`visit_error_rule`), :1584-1598 (`emit_warning`,
-          `visit_warn_rule`), :1830-1895 (`visit_for_stmt`) over a mini statement language.
+          `visit_warn_rule`), :1831-1896 (`visit_for_stmt`) over a mini statement language.
 
   Text is `List Char` (code points); byte offsets are UTF-8 offsets (`Char.utf8Size`), relative to
   the start of the file (codemap's global `Pos` is the file's `low` plus this offset).
@@ -187,7 +190,7 @@ def lookUpSpan (file : List Char) (sp : Span) : Option ((Nat × Nat) × (Nat × 
   | some b, some e => some (b, e)
   | _, _ => none
 
-/-! ## Part 2 — the renderer (`impl Display for SassError`, error.rs:118-172) -/
+/-! ## Part 2 — the renderer (`impl Display for SassError`, error.rs:122-176) -/
 
 def natStr (n : Nat) : List Char := (Nat.repr n).toList
 
@@ -215,10 +218,10 @@ structure RenderLoc where
   el : Nat
   ec : Nat
 
-/-- error.rs:160: `loc.end.column.max(loc.begin.column) - loc.begin.column.min(loc.end.column)`. -/
+/-- error.rs:164: `loc.end.column.max(loc.begin.column) - loc.begin.column.min(loc.end.column)`. -/
 def caretCount (bc ec : Nat) : Nat := max ec bc - min bc ec
 
-/-- error.rs:143: one space per digit of the 1-based line number, plus one. -/
+/-- error.rs:147: one space per digit of the 1-based line number, plus one. -/
 def padding (line1 : Nat) : List Char := List.replicate ((natStr line1).length + 1) ' '
 
 def errorPrefix : List Char := ['E', 'r', 'r', 'o', 'r', ':', ' ']
@@ -370,7 +373,7 @@ def St.skipWarn (st : St) (file line : Nat) : St :=
 def St.defMixin (st : St) (m : Nat) (d : MixinDef) : St := { st with mixins := (m, d) :: st.mixins }
 def St.defFunc (st : St) (f : Nat) (d : FuncDef) : St := { st with funcs := (f, d) :: st.funcs }
 
-/-- `visit_for_stmt` (visitor.rs:1830-1895): direction, inclusive adjustment, iteration count. -/
+/-- `visit_for_stmt` (visitor.rs:1831-1896): direction, inclusive adjustment, iteration count. -/
 def forDir (frm to : Int) : Int := if frm > to then -1 else 1
 def forCount (frm to : Int) (inclusive : Bool) : Nat :=
   let to' := if inclusive then to + forDir frm to else to
